@@ -76,7 +76,10 @@ def gen_match (rng, respect=True):
   arp = dl_type == 0x0806
   nw_proto = None
   if (ip or arp or not respect) and maybe(0.8):
-    nw_proto = rng.choice([1, 6, 17, 6, 17, 2, 47, rint(rng, 8)])
+    # (every protocol number that is "special" somewhere: ICMP, TCP, UDP,
+    #  IGMP, GRE, SCTP, ESP, OSPF, ICMPv6, and the ends of the range)
+    nw_proto = rng.choice([1, 6, 17, 6, 17, 2, 47, 132, 50, 89, 58, 0, 255,
+                           rint(rng, 8)])
     m.nw_proto = nw_proto
   if (ip or not respect) and maybe():
     m.nw_tos = rng.randrange(64) << 2
